@@ -32,7 +32,9 @@ REQUIRED = ["concurrent runs", "importer processes", "outputs compared with soli
             "runs in which forked importers share one DataIterator object made by the parent",
             "runs whose importer processes each had their own PYTHONHASHSEED", "stored row order compared with solitary import",
             "runs importing inputs with repeated lines under merge_strategy=warning",
-            "runs with GTF importers that have gene and transcript inference switched off"]
+            "runs with GTF importers that have gene and transcript inference switched off",
+            "importer processes had run an earlier job: gtf with custom keys", "importer processes had run an earlier job: file with directives",
+            "runs whose importers take a finished database (FeatureDB) as data"]
 ASSUMPTIONS = [
     "overlap is forced at the one point where gffutils holds an intermediate file (between writing and re-reading it); other "
     "interleavings are left to the scheduler (free-running runs with start offsets are included so the barrier cannot mask a failure)",
@@ -51,6 +53,8 @@ HERE = os.path.dirname(os.path.dirname(os.path.dirname(os.path.abspath(__file__)
 # what the forking parent did with the library before it forked its importers
 PARENT_ACTIONS = ["set_pragmas journal_mode=WAL", "set_pragmas query_only=ON", "switch toggled and restored", "update and delete",
                   "failed import"]
+# earlier jobs a worker process may have run before the judged import
+PRE_JOBS = ["gtf with custom keys", "file with directives", "failed import", "pragmas and switches"]
 PARK_FUNCTIONS = [("_update_relations", 30), ("_finalize", 10), ("_populate_from_lines", 8)]
 
 
@@ -114,11 +118,11 @@ def file_state(path):
     return {"side_files": side, "format_versions": [head[18], head[19]] if len(head) >= 20 else None}
 
 
-def solitary(ctx, root, text, from_string, strategy=None, no_inference=False):
+def solitary(ctx, root, text, from_string, strategy=None, no_inference=False, from_db=False):
     """Content dump of a solitary import of this input (done in this process, with its own temp directory)."""
     import gffutils
 
-    key = (text, from_string, strategy, no_inference)
+    key = (text, from_string, strategy, no_inference, from_db)
     skw = {"merge_strategy": strategy} if strategy else {}
     if no_inference:
         skw.update({"disable_infer_genes": True, "disable_infer_transcripts": True})
@@ -129,7 +133,15 @@ def solitary(ctx, root, text, from_string, strategy=None, no_inference=False):
     with open(inp, "w", encoding="utf-8") as fh:
         fh.write(text)
     try:
-        if from_string:
+        if from_db:
+            # the data is a finished database (made from the text) handed to create_db as a FeatureDB
+            mid = ctx.tmp(".solo.src.db")
+            gffutils.create_db(inp, mid).conn.close()
+            src = gffutils.FeatureDB(mid)
+            db = gffutils.create_db(src, out, **skw)
+            src.conn.close()
+            os.unlink(mid)
+        elif from_string:
             db = gffutils.create_db(open(inp, encoding="utf-8").read(), out, from_string=True, **skw)
         else:
             db = gffutils.create_db(inp, out, **skw)
@@ -173,7 +185,8 @@ def imports(ctx, case):
                 t = t + "\n".join(ls[:: max(1, len(ls) // 3)][:4]) + "\n"
             texts.append(t)
         solos = [solitary(ctx, root, t, case["from_string"], case.get("strategy"),
-                          no_inference=bool(case.get("no_inference")) and case["fmts"][j % len(case["fmts"])] == "gtf")
+                          no_inference=bool(case.get("no_inference")) and case["fmts"][j % len(case["fmts"])] == "gtf",
+                          from_db=bool(case.get("from_db")))
                  for j, t in enumerate(texts)]
         try:
             ino = subprocess.Popen(["inotifywait", "-m", "-q", "-e", "create", "-e", "delete", "--format", "%e %f", tmpdir],
@@ -203,6 +216,14 @@ def imports(ctx, case):
                  "from_string": case["from_string"], "offset_ms": rng.randrange(0, 51), "barrier_timeout": 30}
             if case.get("failer") and case["barrier"]:
                 a["wait_marker"] = os.path.join(bdir, "failer.done")
+            if case.get("pre_jobs"):
+                a["pre_jobs"] = case["pre_jobs"]
+            if case.get("from_db"):
+                # every importer gets a finished database of its own (made here, beforehand) as its data
+                import gffutils as _g
+                srcdb = os.path.join(indir, "src%d.db" % i)
+                _g.create_db(inp, srcdb).conn.close()
+                a["from_db"] = srcdb
             if case.get("strategy"):
                 a["merge_strategy"] = case["strategy"]
             if case.get("no_inference") and case["fmts"][i % len(case["fmts"])] == "gtf":
@@ -401,6 +422,11 @@ def imports(ctx, case):
             ctx.mon("runs with importers forked from one parent that had already used gffutils")
             for act in case.get("parent_actions", []):
                 ctx.mon("forking parent had used the library: " + act)
+        if case.get("pre_jobs"):
+            for job in case["pre_jobs"]:
+                ctx.mon("importer processes had run an earlier job: " + job)
+        if case.get("from_db"):
+            ctx.mon("runs whose importers take a finished database (FeatureDB) as data")
         if case.get("strategy"):
             ctx.mon("runs importing inputs with repeated lines under merge_strategy=%s" % case["strategy"])
         if case.get("no_inference"):
@@ -524,6 +550,13 @@ def run(ctx):
                             case["strategy"] = "warning" if from_string else ["warning", "create_unique", "merge"][(i // 3) % 3]
                         if "gtf" in fmts and i % 5 == 0:
                             case["no_inference"] = True
+                        if i % 4 == 1:
+                            case["pre_jobs"] = [PRE_JOBS[(i // 4 + n_) % len(PRE_JOBS)] for n_ in range(2)]
+                            if "gtf" in fmts:
+                                case["pre_jobs"] = ["gtf with custom keys"] + case["pre_jobs"][:1]
+                        if i % 8 == 5 and not from_string and not case.get("strategy"):
+                            case["from_db"] = True
+                            case["pre_jobs"] = ["file with directives"] + case.get("pre_jobs", [])[:1]
                         execute(ctx, case)
                         ov = case.pop("_overlap", 0)
                         pat = case.pop("_pattern", [])
@@ -622,7 +655,7 @@ MANIFEST = {
             "hold a live intermediate file, so the overlap is observed, not hoped for; runs without the barrier and with random "
             "start offsets are added. Every temp path each process opens/creates/removes is logged by an audit hook and checked "
             "offline together with an independent inotify log; each output is compared with a solitary import through plain "
-            "sqlite3. Reader processes read a finished database simultaneously while an import runs beside them. Variants: outputs sharing a basename in different directories, flat inputs without second-level relations, a deliberately failing neighbour import released while the healthy ones hold their intermediate files, imports of ~2*10^5 features, and a look into the directory while each importer process is still alive; readers also run region/limit queries. Importers are also forked (os.fork) from one parent interpreter that has already used the library (set_pragmas, update/delete, a failed import, the escape switch toggled and restored); one importer is parked at each of the first statements of _update_relations/_finalize/_populate_from_lines while a neighbour import starts, runs and finishes; outputs whose names are prefixes of one another are imported with force=True over stale files with one late starter; the journal mode and side files of each output are compared with a solitary import's; forked importers also share one DataIterator object made by their parent; spawned importers get their own PYTHONHASHSEED and the rows are compared in stored order; the importers' garbage collector is off (what a pool worker ending through os._exit is left with), some inputs repeat their own lines under merge_strategy warning/merge/create_unique, some GTF importers run with both inference options off.",
+            "sqlite3. Reader processes read a finished database simultaneously while an import runs beside them. Variants: outputs sharing a basename in different directories, flat inputs without second-level relations, a deliberately failing neighbour import released while the healthy ones hold their intermediate files, imports of ~2*10^5 features, and a look into the directory while each importer process is still alive; readers also run region/limit queries. Importers are also forked (os.fork) from one parent interpreter that has already used the library (set_pragmas, update/delete, a failed import, the escape switch toggled and restored); one importer is parked at each of the first statements of _update_relations/_finalize/_populate_from_lines while a neighbour import starts, runs and finishes; outputs whose names are prefixes of one another are imported with force=True over stale files with one late starter; the journal mode and side files of each output are compared with a solitary import's; forked importers also share one DataIterator object made by their parent; spawned importers get their own PYTHONHASHSEED and the rows are compared in stored order; the importers' garbage collector is off (what a pool worker ending through os._exit is left with), some inputs repeat their own lines under merge_strategy warning/merge/create_unique, some GTF importers run with both inference options off; importer processes first run earlier jobs (a GTF import with custom keys, a file with directives, a failed import, switches toggled and restored) and some take a finished database (FeatureDB) as their data.",
     "note": "Trusted: the OS scheduler only for the free-running class; CPython audit events for open/remove/mkstemp. Evidence "
             "reports the maximum number of simultaneously live intermediate files actually seen.",
 }
